@@ -22,7 +22,14 @@ Python-unhashable leaf below every kind of symbolic parent (they have no hash:
 pg.hash, sym_hash and hash() must agree on that, and where they answer, equal
 values hash equal); the targets of the references next to the references
 (object, symbolic dict, symbolic list as target), at top level and below plain
-containers; tuples with non-number elements.  The pool is built twice (X and
+containers; tuples with non-number elements; objects of ONE class with
+different sets of attribute keys (schemas with a non-const key field, functors
+/ symbolized / wrapped classes with *args and **kwargs, typed dicts with a
+non-const key: no / one / two extra keys, prefix of each other, other keys with
+the same values, keys in another order; case-id class
+`same-class-different-keys`), also as mutation targets (keys added, removed,
+replaced, re-added), where every mutated node is also compared with the
+ORIGINAL content (two different values: trichotomy).  The pool is built twice (X and
 Y, independent constructions) so that the identity short cut of pg.eq does not
 hide anything.
 All ordered pairs and all triples are checked through the pair tables; the
@@ -101,6 +108,18 @@ _PARTS = {
     'F': "@pg.functor()\ndef F(x, y=1): return x\n",
     'W': ("@pg.symbolize\nclass W:\n  def __init__(self, x, y=0): self.x = x\n"
           "class _K:\n  def __init__(self, x, y=0): self.x = x\nWE = pg.wrap(_K, eq=True)\n"),
+    # classes whose objects hold a *variable* set of attributes: a schema with a
+    # non-const key field (any key / keys of a pattern, with and without fixed
+    # fields, a subclass), functors and symbolized / wrapped classes with
+    # *args / **kwargs, a typed dict with a non-const key.
+    'K': ("@pg.members([('x', pg.typing.Any()), (pg.typing.StrKey(), pg.typing.Any())])\n"
+          "class K(pg.Object): pass\nclass K2(K): pass\n"),
+    'KR': "@pg.members([(pg.typing.StrKey('p.*'), pg.typing.Any())])\nclass KR(pg.Object): pass\n",
+    'G': "@pg.functor()\ndef G(x, *args, **kwargs): return x\n",
+    'WK': ("@pg.symbolize\nclass WK:\n  def __init__(self, x, **kwargs): self.x = x\n"
+           "class _J:\n  def __init__(self, x, *args, **kwargs): self.x = x\nWJ = pg.wrap(_J, eq=True)\n"),
+    'VD': ("VD = lambda **kw: pg.Dict(kw, value_spec=pg.typing.Dict("
+           "[('a', pg.typing.Any(default=0)), (pg.typing.StrKey(), pg.typing.Any())]))\n"),
     # referenced values (pg.Ref compares its target by identity).
     'R': "r_1, r_2, r_3 = A(1), A(1), A(2)\n",
     'RC': "r_d, r_l = pg.Dict(k=1), pg.List([1])\n",
@@ -125,6 +144,7 @@ _PART_NAMES = {
     'FN': ('f_add1', 'f_add2', 'f_mul', 'g_a', 'g_b', 'g_k1', 'g_k2', 'c_1', 'c_2', 'p_1'),
     'H': ('H', 'h1', 'h2'), 'F': ('F',), 'W': ('W', 'WE', '_K'),
     'R': ('r_1', 'r_2', 'r_3'), 'RC': ('r_d', 'r_l'),
+    'K': ('K', 'K2'), 'KR': ('KR',), 'G': ('G',), 'WK': ('WK', 'WJ', '_J'), 'VD': ('VD',),
     'T': ('T',), 'LIB': ('_c', 'fv_1', 'fv_2'),
 }
 _NEEDS_F = ('A', 'A2', 'B', 'C', 'N', 'L')
@@ -254,6 +274,28 @@ POOL = [
     '[r_1, 1]', '[r_2, 0]', "{'a': r_1}", "{'a': pg.Ref(r_1)}", '(r_1,)',
     '(pg.Ref(r_1),)', '[r_d]', '[pg.Ref(r_d)]', '[r_l]', '[pg.Ref(r_l)]',
     'pg.Dict(k=1)', 'pg.Dict(a=pg.Ref(r_1))', 'pg.List([pg.Ref(r_d)])',
+    # -- objects of ONE class with different sets of attributes (a schema with a
+    #    non-const key; *args / **kwargs of functors, symbolized and wrapped
+    #    classes; a typed dict with a non-const key): no extra key / one / two,
+    #    one object's attributes a prefix of the other's, the same values under
+    #    other keys, the same keys given in another order, a fixed field that
+    #    differs next to extra keys, subclass, partial, nested in each other and
+    #    below lists / dicts / object fields (followed by an element that orders
+    #    the other way); fixed fields given as keywords in another order.
+    'K(1)', 'K(1, y=2)', 'K(1, y=3)', 'K(1, z=2)', 'K(1, y=2, z=0)', 'K(1, z=0, y=2)',
+    'K(2)', 'K(0, y=2)', 'K(1, y=None)', 'K(1, y=[1])', 'K(1, y=K(1))',
+    'K(1, y=K(1, y=1))', 'K(K(1, y=1))', 'K2(1)', 'K2(1, y=2)', 'K.partial()', 'K.partial(y=2)',
+    'KR()', 'KR(p=1)', 'KR(p1=1)', 'KR(p2=1)', 'KR(p=1, p1=2)', 'KR(p1=2, p=1)',
+    'G(1)', 'G(1, y=2)', 'G(1, z=2)', 'G(1, 2)', 'G(1, 2, y=2)', 'G(1, 2, 3)', 'G(2)',
+    'G.partial(y=2)',
+    'WK(1)', 'WK(1, y=2)', 'WK(1, z=2)', 'WK(2)',
+    'WJ(1)', 'WJ(1, y=2)', 'WJ(1, 2)', 'WJ(1, 2, y=2)', 'WJ(2)',
+    'VD()', 'VD(a=1)', 'VD(b=1)', 'VD(a=1, b=2)', 'VD(b=2, a=1)', 'VD(b=2)', 'VD(c=2)',
+    'A(K(1))', 'A(K(1, y=2))', '[K(1), 1]', '[K(1, y=2), 0]', '[K(1, y=3)]', "{'a': K(1), 'b': 1}",
+    "{'a': K(1, y=2), 'b': 0}", 'C(K(1), 1)', 'C(K(1, y=2), 0)', 'pg.Dict(a=G(1))',
+    'pg.Dict(a=G(1, y=2))', 'pg.List([WK(1)])', 'pg.List([WK(1, y=2)])',
+    'A(VD(b=1))', 'A(VD(c=1))', 'K(1, y={1})',
+    'C(q=2, p=1)', 'B(y=2, x=1)', 'F(y=2, x=1)',
 ]
 
 QUICK_SKIP = set()   # the whole pool is cheap enough for the quick tier.
@@ -275,14 +317,23 @@ class _MObj:
     self.name, self.items = name, items
 
 
-def _model_cls(name, fields, defaults=()):
-  """A stand-in constructor that returns _MObj(name, ((field, value)...))."""
+def _model_cls(name, fields, defaults=(), varargs=None, varkw=False):
+  """A stand-in constructor that returns _MObj(name, ((field, value)...)).
+
+  varargs: name of the field that holds the surplus positional arguments (a
+  list); varkw: keywords other than the fields are attributes of the object."""
   defaults = dict(defaults)
 
   class _Ctor:
     def __call__(self, *args, **kwargs):
+      if len(args) > len(fields) and varargs is None:
+        raise TypeError('too many positional arguments')
+      if not varkw and set(kwargs) - set(fields):
+        raise TypeError('unknown keyword')
       vals = dict(zip(fields, args))
       vals.update(kwargs)
+      if varargs is not None:
+        vals[varargs] = list(args[len(fields):])
       out = []
       for f in fields:
         if f in vals:
@@ -291,6 +342,9 @@ def _model_cls(name, fields, defaults=()):
           out.append((f, defaults[f]))
         else:
           out.append((f, _MISSING))
+      if varargs is not None:
+        out.append((varargs, vals[varargs]))
+      out += [(k, v) for k, v in vals.items() if k not in fields and k != varargs]
       return _MObj(name, tuple(out))
 
     def partial(self, *args, **kwargs):
@@ -313,6 +367,12 @@ _MODEL_NS = dict(
     PD=lambda **kw: {'a': kw.get('a', _MISSING), 'b': kw.get('b', _MISSING)},
     F=_model_cls('F', ['x', 'y'], {'y': 1}), W=_model_cls('W', ['x', 'y'], {'y': 0}),
     WE=_model_cls('WE', ['x', 'y'], {'y': 0}),
+    K=_model_cls('K', ['x'], varkw=True), K2=_model_cls('K2', ['x'], varkw=True),
+    KR=_model_cls('KR', [], varkw=True),
+    G=_model_cls('G', ['x'], varargs='args', varkw=True),
+    WK=_model_cls('WK', ['x'], varkw=True),
+    WJ=_model_cls('WJ', ['x'], varargs='args', varkw=True),
+    VD=lambda **kw: dict({'a': 0}, **kw),
 )
 # Functions and methods are plain Python: the model holds the real ones, and
 # `_norm` refuses them (the statement does not say when two functions denote
@@ -342,7 +402,8 @@ def _norm(v):
   if isinstance(v, _MODEL_NS['U']):
     return ('U', v.k)
   if isinstance(v, _MObj):
-    return ('O', v.name, tuple((k, _norm(x)) for k, x in v.items))
+    # (the order in which the attributes were given does not make another value.)
+    return ('O', v.name, frozenset((k, _norm(x)) for k, x in v.items))
   if isinstance(v, list):
     return ('L', tuple(_norm(x) for x in v))
   if isinstance(v, tuple):
@@ -460,6 +521,11 @@ _STRUCT = ('tuple-elements', 'permuted-dict-keys', 'same-qualname-classes',
 _LEAF_PRIORITY = ('primitive-like', 'set', 'callable', 'ref', 'custom',
                   'unordered-opaque', 'ordered-opaque')
 _NUM = (bool, int, float)
+# two objects of the same class (at aligned positions) with different sets of
+# attribute keys (classes with a non-const key field, *args / **kwargs).  It
+# ranks below the leaf classes: such objects that hold e.g. callables show the
+# defect of the callables.
+_DIFF_KEYS = 'same-class-different-keys'
 
 
 def _typed_missing(v):
@@ -502,13 +568,18 @@ def _aligned(a, b, out, depth=0):
       if k in sb:
         _aligned(ga(k), gb(k), out, depth + 1)
   elif isinstance(a, pg.Object) and type(a) is type(b):
-    for k in a.sym_keys():
+    # the attributes of an object are a dict: keys in another order are the
+    # input class of the order-permuted dicts, other key sets one of their own.
+    la, lb = list(a.sym_keys()), list(b.sym_keys())
+    if la != lb:
+      out['struct'].add('permuted-dict-keys' if set(la) == set(lb) else _DIFF_KEYS)
+    for k in la:
       if b.sym_hasattr(k):
         _aligned(a.sym_getattr(k), b.sym_getattr(k), out, depth + 1)
 
 
 def _is_special(lab):
-  return lab in _STRUCT or lab.endswith('-leaves')
+  return lab in _STRUCT or lab.endswith('-leaves') or lab == _DIFF_KEYS
 
 
 def _pick(labels):
@@ -524,6 +595,8 @@ def _pick(labels):
   for k in _LEAF_PRIORITY:
     if k in kinds:
       return k + '-leaves'
+  if _DIFF_KEYS in labels:
+    return _DIFF_KEYS
   return None
 
 
@@ -539,6 +612,8 @@ def _pair_label(a, b):
       return st
   if out['leaf']:
     return out['leaf']
+  if _DIFF_KEYS in out['struct']:
+    return _DIFF_KEYS
   return '~'.join(sorted([_kind(a), _kind(b)]))
 
 
@@ -632,7 +707,12 @@ def _rand_expr(r, depth, leaves=None):
     n = r.randrange(3)
     elems = [r.choice(['0', '1', '2', '1.0', 'True']) for _ in range(n)]
     return '(' + ''.join(e + ', ' for e in elems) + ')'
-  cls = r.choice(['A', 'A', 'A2', 'B', 'C', 'F', 'W'])
+  cls = r.choice(['A', 'A', 'A2', 'B', 'C', 'F', 'W', 'K', 'K', 'G'])
+  if cls in ('K', 'G'):
+    # a variable set of attributes (the keys in a random order).
+    args = [_rand_expr(r, depth - 1, leaves)] + [
+        f'{k}={_rand_expr(r, depth - 1, leaves)}' for k in r.sample(['a', 'b', 'c'], r.randrange(3))]
+    return f'{cls}(' + ', '.join(args) + ')'
   if cls == 'C':
     return f'C({_rand_expr(r, depth - 1, leaves)}, {_rand_expr(r, depth - 1, leaves)})'
   if cls == 'B' and r.random() < 0.5:
@@ -988,6 +1068,12 @@ def drv_sort(tier, seed):
             ['(1,)', '(r_1,)'], ['bytes([97])', 'bytearray([97])', "'a'", 'bytes([98])']]
   fixed += [['None', '1', 'None'], ['pg.MISSING_VALUE', '0', 'pg.MISSING_VALUE'], ['L1(1)', 'L2(1)'], ['A(1)', 'L2(1)', 'L1(1)'],
             ['None', 'pg.MISSING_VALUE', 'False', "''", '[]', '()', '{}', 'A(None)', 'A.partial()']]
+  # objects of one class with different sets of attributes, every order of input.
+  fixed += [list(p) for p in itertools.permutations(['K(1)', 'K(1, y=2)', 'K(1, z=2)', 'K(0, y=2)'])]
+  fixed += [list(p) for p in itertools.permutations(['G(1)', 'G(1, y=2)', 'G(1, 2)', 'G(1, 2, y=2)'])]
+  fixed += [list(p) for p in itertools.permutations(['KR(p2=1)', 'KR(p1=1)', 'KR()'])]
+  fixed += [list(p) for p in itertools.permutations(['WJ(1, y=2)', 'WJ(1)', 'WK(1, y=2)', 'WK(1)'])]
+  fixed += [list(p) for p in itertools.permutations(['[K(1), 1]', '[K(1, y=2), 0]', '[K(1, y=3)]'])]
 
   for t in range(n_sorts + len(fixed)):
     fam = None
@@ -1184,6 +1270,30 @@ _TARGETS = {
         ('rebind-field', 'rebind', {'x': '9'}),
         ('rebind-two', 'rebind', {'x': '9', 'y': '8'}),
     ]),
+    # objects with a variable set of attributes (a non-const key field; the
+    # *args / **kwargs of a functor): keys added, removed, replaced, re-added in
+    # another position, next to a change of a fixed field.
+    'varkey-obj': (None, [(), ('obj',), ('list', 'dict')], [
+        ('setattr-new-key', 'insert', 'with pg.allow_writable_accessors(True):\n  p.z = 3'),
+        ('setattr-key', 'assign', 'with pg.allow_writable_accessors(True):\n  p.y = 9'),
+        ('rebind-field', 'rebind', {'x': '9'}),
+        ('rebind-key', 'rebind', {'y': '9'}),
+        ('rebind-new-key', 'rebind', {'z': '3'}),
+        ('rebind-new-key-before', 'rebind', {'b': '3'}),
+        ('rebind-delete-key', 'rebind', {'y': 'pg.MISSING_VALUE'}),
+        ('rebind-replace-key', 'rebind', {'y': 'pg.MISSING_VALUE', 'z': '2'}),
+        ('readd-key', 'reorder', "p.rebind({'y': pg.MISSING_VALUE}); p.rebind({'y': 2})"),
+    ]),
+    'varkw-functor': (None, [(), ('obj',), ('list', 'dict')], [
+        ('rebind-field', 'rebind', {'x': '9'}),
+        ('rebind-new-key', 'rebind', {'z': '3'}),
+        ('rebind-delete-key', 'rebind', {'y': 'pg.MISSING_VALUE'}),
+        ('rebind-replace-key', 'rebind', {'y': 'pg.MISSING_VALUE', 'z': '2'}),
+        ('rebind-append-arg', 'rebind', {'args[1]': '3'}),
+        ('rebind-delete-arg', 'rebind', {'args[0]': 'pg.MISSING_VALUE'}),
+        ('rebind-args', 'rebind', {'args': '[]'}),
+        ('readd-key', 'reorder', "p.rebind({'y': pg.MISSING_VALUE}); p.rebind({'y': 2})"),
+    ]),
     'tdict': (None, [('tdict',), ('list', 'tdict')], [
         ('setitem', 'assign', "p['u'] = 7"),
         ('setattr', 'assign', 'p.w = [1]'),
@@ -1196,7 +1306,8 @@ _TARGETS = {
 }
 _TARGET_SRC = {'list': 'pg.List([3, 1, 2])', 'dict': 'pg.Dict(a=1, b=2)',
                'obj': 'C(1, 2)', 'tdict': "{'u': 2, 'w': 5}", 'functor': 'F(1, 2)',
-               'wrapped': 'W(1, 2)', 'wrapped-eq': 'WE(1, 2)'}
+               'wrapped': 'W(1, 2)', 'wrapped-eq': 'WE(1, 2)',
+               'varkey-obj': 'K(1, y=2, c=0)', 'varkw-functor': 'G(1, 2, y=2, c=0)'}
 
 
 def _target_chains(kind):
@@ -1324,6 +1435,13 @@ _MUT_LAWS = [
     ('lt.respects-eq-left', 'pg.lt(n, o) == pg.lt(m, o)'),
     ('lt.respects-eq-right', 'pg.lt(o, n) == pg.lt(o, m)'),
 ]
+# the mutated node against the ORIGINAL content of the root: whatever the two
+# values are, exactly one of less / equal / greater holds, by the functions and
+# by the methods, and gt is lt swapped.
+_MUT_LAW_ORIGINAL = (
+    'lt.trichotomy-vs-original',
+    '[pg.lt(n, o), pg.eq(n, o), pg.lt(o, n)].count(True) == 1 and pg.gt(n, o) == pg.lt(o, n) '
+    'and n.sym_lt(o) == pg.lt(n, o) and n.sym_eq(o) == pg.eq(n, o) and pg.ne(n, o) != pg.eq(n, o)')
 _MUT_LAWS_OPTED_IN = [
     ('operator.hash-agrees', 'hash(n) == pg.hash(n) and hash(n) == hash(m) and len({n, m}) == 1 and m in {n: 0}'),
     ('operator.==agrees', '(n == m) is True and (m == n) is True'),
@@ -1357,7 +1475,7 @@ def drv_mutation(tier, seed):
 
   skipped = [0]
   law_code = {}
-  for law, cond in _MUT_LAWS + _MUT_LAWS_OPTED_IN:
+  for law, cond in _MUT_LAWS + _MUT_LAWS_OPTED_IN + [_MUT_LAW_ORIGINAL]:
     law_code[law] = compile(cond, '<c06-law>', 'eval')
 
   def scenario(kind, chain, steps, warm, via):
@@ -1433,7 +1551,7 @@ def drv_mutation(tier, seed):
           laws = _MUT_LAWS + (_MUT_LAWS_OPTED_IN if _opted_in(n) else [])
           sfx = suffix + ('/source-of-clone' if var == 's' else '')
           rec.keys.add((sfx, repr(key), idx))
-          for law, cond in laws:
+          for law, cond in laws + [_MUT_LAW_ORIGINAL]:
             try:
               ok, msg = bool(eval(law_code[law], env)), f'not ({cond})'  # pylint: disable=eval-used
             except Exception as e:  # pylint: disable=broad-except
@@ -1441,6 +1559,16 @@ def drv_mutation(tier, seed):
             if ok:
               rec.cases += 1
               continue
+            if law == _MUT_LAW_ORIGINAL[0]:
+              # n and o are two different values in general: the input class of
+              # the pair is what it is for the pair tables (e.g. a key deleted
+              # and added again makes an order-permuted dict).
+              lab = _pair_label(n, o)
+              if _is_special(lab) and lab != _DIFF_KEYS:
+                rec.case(f'lt.trichotomy/{lab}', key + (idx,), False,
+                         f'{msg}; n = node {idx} of the chain after {name!r}, o = {o_src}',
+                         _fit(_pre(expr, m_src) + done + f'n = nodes({var})[{idx}]\no = {o_src}\nassert {cond}', key))
+                continue
             rec.case(f'{law}/{sfx}', key + (idx,), False,
                      f'{msg}; n = node {idx} of the chain after {name!r}, m = {m_src}',
                      _fit(_pre(expr, m_src) + done +
